@@ -29,7 +29,102 @@ func (ast *Ast) EquivalentCall(other *Ast) bool {
 		other.Callables == nil || other.Callables.Table == nil {
 		return false
 	}
-	return ast.Call.EquivalentTo(other.Call, ast.Callables, other.Callables)
+	return ast.Call.EquivalentTo(other.Call, ast.Callables, other.Callables) &&
+		ast.equivalentStructs(other)
+}
+
+// Struct types used by the parameters of the callables in the transitive
+// closure of the top-level call must have the same members with the same
+// types.  As for parameters, changes to file type names are ignored.
+func (ast *Ast) equivalentStructs(other *Ast) bool {
+	mine := make(map[string]*StructType, len(ast.StructTypes))
+	for _, s := range ast.StructTypes {
+		mine[s.Id] = s
+	}
+	theirs := make(map[string]*StructType, len(other.StructTypes))
+	for _, s := range other.StructTypes {
+		theirs[s.Id] = s
+	}
+	isFileName := func(a *Ast, name string) bool {
+		if name == KindFile || name == KindPath {
+			return true
+		}
+		for _, t := range a.UserTypes {
+			if t.Id == name {
+				return true
+			}
+		}
+		return false
+	}
+	seenTypes := make(map[string]struct{})
+	var checkType func(name string) bool
+	checkType = func(name string) bool {
+		s := mine[name]
+		if s == nil {
+			return true
+		} else if _, ok := seenTypes[name]; ok {
+			return true
+		}
+		seenTypes[name] = struct{}{}
+		o := theirs[name]
+		if o == nil || len(o.Members) != len(s.Members) {
+			util.PrintInfo("compare", "Struct %s members changed.", name)
+			return false
+		}
+		members := make(map[string]*StructMember, len(o.Members))
+		for _, m := range o.Members {
+			members[m.Id] = m
+		}
+		for _, m := range s.Members {
+			om := members[m.Id]
+			if om == nil || m.Tname.ArrayDim != om.Tname.ArrayDim ||
+				m.Tname.MapDim != om.Tname.MapDim ||
+				m.Tname.Tname != om.Tname.Tname &&
+					!(isFileName(ast, m.Tname.Tname) &&
+						isFileName(other, om.Tname.Tname)) {
+				util.PrintInfo("compare",
+					"Struct %s member %s changed.", name, m.Id)
+				return false
+			} else if !checkType(m.Tname.Tname) {
+				return false
+			}
+		}
+		return true
+	}
+	seenCallables := make(map[string]struct{})
+	var checkCallable func(id string) bool
+	checkCallable = func(id string) bool {
+		callable := ast.Callables.Table[id]
+		if callable == nil {
+			return true
+		} else if _, ok := seenCallables[id]; ok {
+			return true
+		}
+		seenCallables[id] = struct{}{}
+		if params := callable.GetInParams(); params != nil {
+			for _, param := range params.List {
+				if !checkType(param.GetTname().Tname) {
+					return false
+				}
+			}
+		}
+		if params := callable.GetOutParams(); params != nil {
+			for _, param := range params.List {
+				if !checkType(param.GetTname().Tname) {
+					return false
+				}
+			}
+		}
+		if pipeline, ok := callable.(*Pipeline); ok {
+			for _, call := range pipeline.Calls {
+				if !checkCallable(call.DecId) {
+					return false
+				}
+			}
+		}
+		return true
+	}
+	return ast.Call == nil || checkCallable(ast.Call.DecId)
 }
 
 // Two calls are semantically equivalent if their (possibly aliased) names are
